@@ -1092,3 +1092,39 @@ def created(cls):
 
 def call_result(q, k=None):
     raise LookupError("call_result() is not available in the executable reading")
+
+
+# ---- C19: seqlogos
+class _AnyNewAxes:
+    """stands for 'a newly created Axes' in the executable reading"""
+
+
+def new_axes():
+    return _AnyNewAxes()
+
+
+def is_count_matrix_of(m, seqs):
+    import logomaker as lm
+    import numpy as _np
+    ref = lm.alignment_to_matrix(list(seqs))
+    if list(m.columns) != list(ref.columns) or m.shape != ref.shape:
+        return False
+    for i in range(m.shape[0]):
+        for c in m.columns:
+            if int(m.iloc[i][c]) != column_count(seqs, i, c):
+                return False
+    return True
+
+
+def logo_drawn_on(m, ax):
+    return len(ax.patches) > 0 or len(ax.get_children()) > 0       # (what the renderer drew is outside the contract)
+
+
+_same_value_prev = same_value
+
+
+def same_value(a, b):      # noqa: F811
+    if isinstance(b, _AnyNewAxes):
+        import matplotlib.axes
+        return isinstance(a, matplotlib.axes.Axes)
+    return _same_value_prev(a, b)
